@@ -43,6 +43,11 @@ def _real(n, lo=-1.0, hi=1.0):
     return lambda rng: [round(rng.uniform(lo, hi), 6) for _ in range(n)]
 
 
+def _spd2(rng):
+    a, b, c, d = (rng.uniform(-1, 1) for _ in range(4))
+    return [round(a * a + b * b + 0.5, 6), round(a * c + b * d, 6), round(a * c + b * d, 6), round(c * c + d * d + 0.5, 6)]
+
+
 def _heights(rng):
     # caterpillar (((A,B),C),D) with tip dates 0,0,1,2: internal heights must increase and clear the tips
     h0 = rng.uniform(0.2, 0.9)
@@ -101,10 +106,20 @@ LEAVES = {
     "kappa_a": (_pos(1, 1.0, 4.0), [1.5]),                  # replaced by kappa_b after construction
     "kappa_b": (_pos(1, 1.0, 4.0), [2.5]),
     "hky2_freqs": (_simplex(4), [0.3, 0.2, 0.2, 0.3]),
+    # further model classes
+    "theta_e": (_pos(1, 1.0, 10.0), [5.0]),
+    "growth": (_real(1, -0.5, 0.5), [0.1]),
+    "mvn_x": (_real(2), [0.2, -0.3]),
+    "mvn_loc": (_real(2), [0.0, 0.1]),
+    "mvn_cov": (_spd2, [1.0, 0.3, 0.3, 1.5]),
+    "bb_x": (_real(3), [0.3, -0.2, 0.5]),
+    "bb_scale": (_pos(1, 0.5, 2.0), [1.0]),
+    "bb_alpha": (_pos(1, 0.3, 1.5), [0.5]),
+    "ctmc_rate": (_pos(1, 0.01, 0.2), [0.02]),
     "theta2": (_pos(1, 1.0, 10.0), [3.0]),
 }
 
-LEAF_SHAPES = {"lin_w": (3, 2)}
+LEAF_SHAPES = {"lin_w": (3, 2), "mvn_cov": (2, 2)}
 
 
 def _tensor(lid, v):
@@ -225,6 +240,18 @@ def spec(values: dict, with_mg94_like: bool = True):
          "x": "theta", "parameters": {"loc": "theta_loc", "scale": "theta_scale"}},
         {"id": "prior_tail", "type": "Distribution", "distribution": "torch.distributions.Exponential",
          "x": "tail_rates", "parameters": {"rate": 1.0}},
+        # ---------------- further classes: JC69, exponential coalescent, torchtree's MultivariateNormal model,
+        # BayesianBridge, CTMCScale; a joint INSIDE a joint (container of models holding a container of models)
+        {"id": "jc", "type": "JC69"},
+        {"id": "like_jc", "type": "TreeLikelihoodModel", "tree_model": "utree", "site_model": "site_c",
+         "substitution_model": "jc", "site_pattern": "sp"},
+        {"id": "coal_e", "type": "ExponentialCoalescentModel", "theta": "theta_e", "growth": "growth", "tree_model": "ttree2"},
+        {"id": "mvn", "type": "MultivariateNormal", "x": "mvn_x",
+         "parameters": {"loc": "mvn_loc", "covariance_matrix": "mvn_cov"}},
+        {"id": "bridge", "type": "BayesianBridge", "x": "bb_x", "scale": "bb_scale", "alpha": "bb_alpha"},
+        {"id": "ctmc", "type": "CTMCScale", "x": "ctmc_rate", "tree_model": "ttree2"},
+        {"id": "joint_in", "type": "JointDistributionModel", "distributions": ["mvn", "bridge", "coal_e"]},
+        {"id": "joint_out", "type": "JointDistributionModel", "distributions": ["joint_in", "ctmc", "like_jc", "coal2"]},
     ] + [
         {"id": "prior_" + v, "type": "Distribution", "distribution": "torch.distributions.Exponential",
          "x": v, "parameters": {"rate": 1.5}} for v in VIEWS
@@ -256,7 +283,32 @@ def initial_values():
     return {k: list(v[1]) for k, v in LEAVES.items()}
 
 
-def build(values, small=False, grads=None, **kw):
+FULL_TYPE = {"Parameter": "torchtree.core.parameter.Parameter",
+             "TransformedParameter": "torchtree.core.parameter.TransformedParameter",
+             "ViewParameter": "torchtree.core.parameter.ViewParameter",
+             "Distribution": "torchtree.distributions.distributions.Distribution",
+             "HKY": "torchtree.evolution.substitution_model.nucleotide.HKY",
+             "JointDistributionModel": "torchtree.distributions.joint_distribution.JointDistributionModel"}
+
+
+def other_route(spec_list):
+    """the same description written differently: keys of every object in REVERSED order, full dotted type names
+    where a short registered name was used (the objects built must be the same)"""
+    out = []
+    for d in spec_list:
+        if "py" in d or "post" in d:
+            out.append(d)
+            continue
+        e = {k: d[k] for k in reversed(list(d))}
+        if e.get("type") in FULL_TYPE:
+            e["type"] = FULL_TYPE[e["type"]]
+        if isinstance(e.get("parameters"), dict):
+            e["parameters"] = {k: e["parameters"][k] for k in reversed(list(e["parameters"]))}
+        out.append(e)
+    return out
+
+
+def build(values, small=False, grads=None, route=0, **kw):
     """process the description with torchtree's own loader; returns the id dictionary.
     `grads`: leaf ids to build with requires_grad=True"""
     from torchtree.core.utils import process_object
@@ -266,7 +318,10 @@ def build(values, small=False, grads=None, **kw):
     GRADS.update({k: True for k in (grads or [])})
     dic = {}
     del ASSIGNMENTS[:]
-    for d in (spec_small(values) if small else spec(values, **kw)):
+    items = spec_small(values) if small else spec(values, **kw)
+    if route == 1:
+        items = other_route(items)
+    for d in items:
         if "py" in d:
             dic[d["id"]] = build_py(d, dic)
         elif "post" in d:
